@@ -42,6 +42,17 @@ func recC05(c *ctx) {
 			c.scalarEvent(op, func() []byte { return append([]byte(nil), b...) })
 		}
 	}
+	// values handed to the caller are the caller's own: marshal, scribble over the result, marshal again
+	{
+		sc, _ := scalar.NewFromBits(c.r.Bytes(32))
+		get := func() []byte { b, _ := sc.MarshalBinary(); return b }
+		b1 := get()
+		snap := append([]byte(nil), b1...)
+		for i := range b1 {
+			b1[i] ^= 0xff
+		}
+		c.w.Emit(vt.Ev{"op": "fresh", "cfg": c.cfg, "api": "Scalar.MarshalBinary", "ok": bytes.Equal(get(), snap)})
+	}
 	// constructors: SetUint64, One, SetRandom (= wide reduction of 64 bytes read from the entropy source)
 	for _, x := range []uint64{0, 1, 2, 1 << 63, ^uint64(0), 0x1234567890abcdef} {
 		var b [8]byte
